@@ -94,3 +94,38 @@ Proof.
   destruct (store_refresh (SSubs i) (sb_ttl (from_subscribe_entry e)) a (KSub (from_subscribe_entry e)) w) as [w1 ok] eqn:E.
   cbn [snd fst]. destruct ok; cbn [gprep fst snd fold_left run_sub_act]; rewrite E; split; reflexivity.
 Qed.
+
+(* ------------------------------------------------------------------ ServiceSubscriber: subscribe / stop-subscribe calls *)
+Definition run_sact (g : eventgroup) (ep : addr) (w : option world) (s : sact) : option world :=
+  match w, s with
+  | Some w, SAppend => Some (set_sub_entries (sub_entries w ++ [(g, ep)]) w)
+  | Some w, SRemove => match remove_first sub_entry_eqb (g, ep) (sub_entries w) with
+                       | Some l => Some (set_sub_entries l w)
+                       | None => None
+                       end
+  | Some w, SSoonStart => Some (call_soon (HSendStartSub ep [g]) w)
+  | Some w, SSoonStop => Some (call_soon (HSendStopSub ep [g]) w)
+  | None, _ => None
+  end.
+(* the ghost event of the model (note_dup) is not part of the code; what the call does to the rest is subscribe_core *)
+Theorem subscribe_eventgroup_is_the_translated_source g ep w :
+  fold_left (run_sact g ep) (gen_sub_subscribe (sub_alive w)) (Some w) = Some (subscribe_core g ep w).
+Proof.
+  unfold gen_sub_subscribe, subscribe_core. cbn [fold_left run_sact]. change (sub_alive (set_sub_entries _ w)) with (sub_alive w).
+  destruct (sub_alive w); reflexivity.
+Qed.
+Theorem stop_subscribe_eventgroup_is_the_translated_source g ep send w :
+  let found := match remove_first sub_entry_eqb (g, ep) (sub_entries w) with Some _ => true | None => false end in
+  fold_left (run_sact g ep) (gen_sub_stop_subscribe found send) (Some w) = Some (stop_subscribe_eventgroup g ep send w).
+Proof.
+  cbv zeta. unfold gen_sub_stop_subscribe, stop_subscribe_eventgroup.
+  destruct (remove_first sub_entry_eqb (g, ep) (sub_entries w)) as [l|] eqn:E; [|reflexivity].
+  destruct send; cbn [fold_left run_sact app]; rewrite E; reflexivity.
+Qed.
+(* the deferred transmissions: TTL and entries as the source builds them *)
+Theorem send_start_stop_are_the_translated_source ep gs w :
+  exec (HSendStartSub ep gs) w
+    = send_sd (gen_sub_entries (fun g ttl => create_subscribe_entry g ttl 0) (gen_sub_start_ttl (t_subscribe_ttl (cfg w))) gs) (Some ep) w
+  /\ exec (HSendStopSub ep gs) w
+    = send_sd (gen_sub_entries (fun g ttl => create_subscribe_entry g ttl 0) (gen_sub_stop_ttl (t_subscribe_ttl (cfg w))) gs) (Some ep) w.
+Proof. split; reflexivity. Qed.
